@@ -40,6 +40,7 @@ func Deserializer.Skip
   ensures r0 == d && inv(d) && d.src == old(d.src) && d.offset >= old(d.offset)
   ensures old(d.err) != nil ==> d.offset == old(d.offset) && d.err == old(d.err)
   ensures d.offset == old(d.offset) || d.offset == old(d.offset) + skip
+  ensures old(d.err) == nil && len(d.src) - old(d.offset) >= skip ==> d.err == nil && d.offset == old(d.offset) + skip
 
 func Deserializer.ReadBool
   requires d != nil && inv(d) && dest != nil
@@ -48,6 +49,8 @@ func Deserializer.ReadBool
   ensures r0 == d && inv(d) && d.src == old(d.src) && d.offset >= old(d.offset)
   ensures old(d.err) != nil ==> d.offset == old(d.offset) && d.err == old(d.err)
   ensures d.offset != old(d.offset) ==> d.offset == old(d.offset) + 1 && (d.src[old(d.offset)] == 0 || d.src[old(d.offset)] == 1) && (*dest <==> d.src[old(d.offset)] == 1)
+  -- success direction: enough input and a canonical bool byte
+  ensures old(d.err) == nil && len(d.src) - old(d.offset) >= 1 && (d.src[old(d.offset)] == 0 || d.src[old(d.offset)] == 1) ==> d.err == nil && d.offset == old(d.offset) + 1
 
 func Deserializer.ReadByte
   requires d != nil && inv(d) && dest != nil
@@ -56,6 +59,7 @@ func Deserializer.ReadByte
   ensures r0 == d && inv(d) && d.src == old(d.src) && d.offset >= old(d.offset)
   ensures old(d.err) != nil ==> d.offset == old(d.offset) && d.err == old(d.err)
   ensures d.offset != old(d.offset) ==> d.offset == old(d.offset) + 1 && *dest == d.src[old(d.offset)]
+  ensures old(d.err) == nil && len(d.src) - old(d.offset) >= 1 ==> d.err == nil && d.offset == old(d.offset) + 1
 
 func Deserializer.ReadBytes
   requires d != nil && inv(d) && slice != nil && numBytes >= 0
@@ -67,6 +71,8 @@ func Deserializer.ReadBytes
   ensures numBytes >= 0 ==> d.offset >= old(d.offset)
   ensures d.offset != old(d.offset) ==> d.offset == old(d.offset) + numBytes && len(*slice) == numBytes && fresh(*slice)
   ensures d.offset != old(d.offset) ==> forall i Int :: 0 <= i && i < numBytes ==> (*slice)[i] == d.src[old(d.offset) + i]
+  ensures old(d.err) == nil && len(d.src) - old(d.offset) >= numBytes ==> d.err == nil && d.offset == old(d.offset) + numBytes && len(*slice) == numBytes
+  ensures old(d.err) == nil && len(d.src) - old(d.offset) >= numBytes ==> forall i Int :: 0 <= i && i < numBytes ==> (*slice)[i] == d.src[old(d.offset) + i]
 
 func Deserializer.ReadBytesInPlace
   requires d != nil && inv(d)
@@ -86,6 +92,7 @@ func Deserializer.readSliceLength
   ensures d.offset != old(d.offset) && lenType == SeriLengthPrefixTypeAsByte ==> d.offset == old(d.offset) + 1 && r0 == d.src[old(d.offset)]
   ensures d.offset != old(d.offset) && lenType == SeriLengthPrefixTypeAsUint16 ==> d.offset == old(d.offset) + 2 && r0 == le16(elems(d.src), off(d.src) + old(d.offset))
   ensures d.offset != old(d.offset) && lenType == SeriLengthPrefixTypeAsUint32 ==> d.offset == old(d.offset) + 4 && r0 == le32(elems(d.src), off(d.src) + old(d.offset))
+  ensures len(d.src) - old(d.offset) >= (lenType == SeriLengthPrefixTypeAsByte ? 1 : (lenType == SeriLengthPrefixTypeAsUint16 ? 2 : 4)) ==> r1 == nil && d.offset == old(d.offset) + (lenType == SeriLengthPrefixTypeAsByte ? 1 : (lenType == SeriLengthPrefixTypeAsUint16 ? 2 : 4)) && r0 == lenprefix(elems(d.src), off(d.src) + old(d.offset), lenType)
 
 func Deserializer.ReadVariableByteSlice
   requires d != nil && inv(d) && slice != nil
@@ -95,6 +102,9 @@ func Deserializer.ReadVariableByteSlice
   modifies d.offset, d.err, *slice
   ensures r0 == d && inv(d) && d.src == old(d.src) && d.offset >= old(d.offset)
   ensures old(d.err) != nil ==> d.offset == old(d.offset) && d.err == old(d.err)
+  -- success direction: the whole field is there and its length is within the bounds
+  ensures old(d.err) == nil && len(d.src) - old(d.offset) >= (lenType == SeriLengthPrefixTypeAsByte ? 1 : (lenType == SeriLengthPrefixTypeAsUint16 ? 2 : 4)) && len(d.src) - old(d.offset) - (lenType == SeriLengthPrefixTypeAsByte ? 1 : (lenType == SeriLengthPrefixTypeAsUint16 ? 2 : 4)) >= lenprefix(elems(d.src), off(d.src) + old(d.offset), lenType) && !(maxLen > 0 && lenprefix(elems(d.src), off(d.src) + old(d.offset), lenType) > maxLen) && !(minLen > 0 && lenprefix(elems(d.src), off(d.src) + old(d.offset), lenType) < minLen) ==> d.err == nil && d.offset == old(d.offset) + (lenType == SeriLengthPrefixTypeAsByte ? 1 : (lenType == SeriLengthPrefixTypeAsUint16 ? 2 : 4)) + lenprefix(elems(d.src), off(d.src) + old(d.offset), lenType) && len(*slice) == lenprefix(elems(d.src), off(d.src) + old(d.offset), lenType)
+  ensures old(d.err) == nil && len(d.src) - old(d.offset) >= (lenType == SeriLengthPrefixTypeAsByte ? 1 : (lenType == SeriLengthPrefixTypeAsUint16 ? 2 : 4)) && len(d.src) - old(d.offset) - (lenType == SeriLengthPrefixTypeAsByte ? 1 : (lenType == SeriLengthPrefixTypeAsUint16 ? 2 : 4)) >= lenprefix(elems(d.src), off(d.src) + old(d.offset), lenType) && !(maxLen > 0 && lenprefix(elems(d.src), off(d.src) + old(d.offset), lenType) > maxLen) && !(minLen > 0 && lenprefix(elems(d.src), off(d.src) + old(d.offset), lenType) < minLen) ==> forall i Int :: 0 <= i && i < len(*slice) ==> (*slice)[i] == d.src[old(d.offset) + (lenType == SeriLengthPrefixTypeAsByte ? 1 : (lenType == SeriLengthPrefixTypeAsUint16 ? 2 : 4)) + i]
 
 func Deserializer.ReadString
   requires d != nil && inv(d) && s != nil
@@ -115,6 +125,7 @@ func Deserializer.ReadPayloadLength
   ensures inv(d) && d.src == old(d.src) && d.offset >= old(d.offset)
   ensures r1 == nil ==> d.offset == old(d.offset) + 4 && r0 == le32(elems(d.src), off(d.src) + old(d.offset))
   ensures r1 != nil ==> d.offset == old(d.offset)
+  ensures len(d.src) - old(d.offset) >= 4 ==> r1 == nil
 
 func Deserializer.ReadTime
   requires d != nil && inv(d) && dest != nil
@@ -123,6 +134,7 @@ func Deserializer.ReadTime
   ensures r0 == d && inv(d) && d.src == old(d.src) && d.offset >= old(d.offset)
   ensures old(d.err) != nil ==> d.offset == old(d.offset) && d.err == old(d.err)
   ensures d.offset != old(d.offset) ==> d.offset == old(d.offset) + 8
+  ensures old(d.err) == nil && len(d.src) - old(d.offset) >= 8 ==> d.err == nil && d.offset == old(d.offset) + 8
 
 func Deserializer.ReadUint256
   requires d != nil && inv(d) && dest != nil
@@ -184,6 +196,16 @@ func Deserializer.ReadNum
   ensures d.offset != old(d.offset) && typeof(dest) == typeid(*uint16) ==> d.offset == old(d.offset) + 2 && *unbox(*uint16, dest) == le16(elems(d.src), off(d.src) + old(d.offset))
   ensures d.offset != old(d.offset) && typeof(dest) == typeid(*uint32) ==> d.offset == old(d.offset) + 4 && *unbox(*uint32, dest) == le32(elems(d.src), off(d.src) + old(d.offset))
   ensures d.offset != old(d.offset) && typeof(dest) == typeid(*uint64) ==> d.offset == old(d.offset) + 8 && *unbox(*uint64, dest) == le64(elems(d.src), off(d.src) + old(d.offset))
+  -- two's complement for the signed kinds
+  ensures d.offset != old(d.offset) && typeof(dest) == typeid(*int8) ==> d.offset == old(d.offset) + 1 && *unbox(*int8, dest) == (d.src[old(d.offset)] >= 128 ? d.src[old(d.offset)] - 256 : d.src[old(d.offset)])
+  ensures d.offset != old(d.offset) && typeof(dest) == typeid(*int16) ==> d.offset == old(d.offset) + 2 && *unbox(*int16, dest) == (le16(elems(d.src), off(d.src) + old(d.offset)) >= 32768 ? le16(elems(d.src), off(d.src) + old(d.offset)) - 65536 : le16(elems(d.src), off(d.src) + old(d.offset)))
+  ensures d.offset != old(d.offset) && typeof(dest) == typeid(*int32) ==> d.offset == old(d.offset) + 4 && *unbox(*int32, dest) == (le32(elems(d.src), off(d.src) + old(d.offset)) >= 2147483648 ? le32(elems(d.src), off(d.src) + old(d.offset)) - 4294967296 : le32(elems(d.src), off(d.src) + old(d.offset)))
+  ensures d.offset != old(d.offset) && typeof(dest) == typeid(*int64) ==> d.offset == old(d.offset) + 8 && *unbox(*int64, dest) == (le64(elems(d.src), off(d.src) + old(d.offset)) >= 9223372036854775808 ? le64(elems(d.src), off(d.src) + old(d.offset)) - 18446744073709551616 : le64(elems(d.src), off(d.src) + old(d.offset)))
+  -- success direction
+  ensures old(d.err) == nil && len(d.src) - old(d.offset) >= ((typeof(dest) == typeid(*int8) || typeof(dest) == typeid(*uint8)) ? 1 : ((typeof(dest) == typeid(*int16) || typeof(dest) == typeid(*uint16)) ? 2 : ((typeof(dest) == typeid(*int32) || typeof(dest) == typeid(*uint32) || typeof(dest) == typeid(*float32)) ? 4 : 8))) ==> d.err == nil && d.offset != old(d.offset)
+  -- only the destination cell is written
+  ensures forall p *int64 :: p != unbox(*int64, dest) ==> *p == old(*p)
+  ensures forall p *float64 :: p != unbox(*float64, dest) ==> *p == old(*p)
 
 func Deserializer.ReadSequenceOfObjects
   requires d != nil && inv(d)
